@@ -1,11 +1,11 @@
 use crate::args::UserArgs;
 use crate::quic::{load_root_store, read_certs, server_config, ConfigOptions};
 use crate::topic::{pubsub, reqrep, Sender, Socket};
-use anyhow::{anyhow, bail, Context, Result};
+use anyhow::{bail, Context, Result};
 use futures::{future::join_all, stream::FuturesUnordered, SinkExt, StreamExt};
 use log::{error, info};
 use quinn::{Connecting, Connection, Endpoint, IdleTimeout, VarInt};
-use selium_protocol::error_codes::INVALID_TOPIC_NAME;
+use selium_protocol::error_codes::{INVALID_TOPIC_NAME, TOPIC_KIND_MISMATCH};
 use selium_protocol::{error_codes, BiStream, ErrorPayload, Frame, TopicName};
 use selium_std::errors::SeliumError;
 use std::net::SocketAddr;
@@ -163,7 +163,18 @@ async fn handle_stream(
     // Receive header
     if let Some(result) = stream.next().await {
         let frame = result?;
-        let topic = frame.get_topic().ok_or(anyhow!("Expected header frame"))?;
+        let topic = match frame.get_topic() {
+            Some(topic) => topic,
+            // Tell the peer why its stream is not being served, rather than dropping it
+            None => {
+                let payload = ErrorPayload {
+                    code: error_codes::UNKNOWN_ERROR,
+                    message: "Expected a registration frame".into(),
+                };
+                stream.send(Frame::Error(payload)).await?;
+                bail!("Expected header frame");
+            }
+        };
 
         #[cfg(feature = "__cloud")]
         {
@@ -198,7 +209,6 @@ async fn handle_stream(
                 stream.send(Frame::Error(payload)).await?;
                 return Ok(());
             }
-            stream.send(Frame::Ok).await?;
         }
 
         let mut ts = topics.lock().await;
@@ -228,6 +238,24 @@ async fn handle_stream(
         // be full, and waiting for it while holding the lock would block every other topic.
         let mut tx = ts.get(topic).unwrap().clone();
         drop(ts);
+
+        // The messaging pattern of a topic is fixed by its first registration. Refuse a stream
+        // of the other pattern explicitly, before it has been told that it was accepted.
+        let is_pubsub_stream = matches!(
+            frame,
+            Frame::RegisterPublisher(_) | Frame::RegisterSubscriber(_)
+        );
+        if tx.is_pubsub() != is_pubsub_stream {
+            let payload = ErrorPayload {
+                code: TOPIC_KIND_MISMATCH,
+                message: "Topic is already in use with a different messaging pattern".into(),
+            };
+            stream.send(Frame::Error(payload)).await?;
+            return Ok(());
+        }
+
+        #[cfg(not(feature = "__cloud"))]
+        stream.send(Frame::Ok).await?;
 
         match frame {
             Frame::RegisterPublisher(_) => {
